@@ -5,6 +5,7 @@ import (
 	"encoding/binary"
 	"fmt"
 	"math/rand"
+	"strings"
 	"time"
 
 	"verif/harness/chain"
@@ -126,8 +127,7 @@ func pick[T any](rng *rand.Rand, xs []T, n int) []T {
 
 func unknownRoot(tag string, n uint64) common.Root { return chain.UnknownRoot("gossip-"+tag, n) }
 
-func (s *Scen) histories(tier string, rng *rand.Rand, want map[string]bool) []*History {
-	var out []*History
+func (s *Scen) histories(tier string, rng *rand.Rand, want map[string]bool) (out []*History, failed []string) {
 	on := func(t string) bool { return len(want) == 0 || want[t] }
 	type gen struct {
 		topic string
@@ -138,17 +138,68 @@ func (s *Scen) histories(tier string, rng *rand.Rand, want map[string]bool) []*H
 		{"exit", s.exitHistories}, {"pslash", s.pslashHistories}, {"aslash", s.aslashHistories},
 		{"syncmsg", s.syncMsgHistories}, {"contrib", s.contribHistories},
 	} {
-		if on(g.topic) {
-			hs := g.fn(tier, rand.New(rand.NewSource(rng.Int63())))
+		sub := rng.Int63()
+		if !on(g.topic) || (s.Only != nil && !s.Only[g.topic]) {
+			continue
+		}
+		// a catalogue that cannot be built on the tree under test (e.g. zrnt refuses to produce an
+		// honest block) is reported and skipped; the other catalogues are still judged
+		func() {
+			defer func() {
+				if r := recover(); r != nil {
+					failed = append(failed, fmt.Sprintf("%s/%s: %v", s.Name, g.topic, r))
+				}
+			}()
+			hs := g.fn(tier, rand.New(rand.NewSource(sub)))
 			for _, h := range hs {
 				h.Name = g.topic + "/" + h.Name
 			}
 			out = append(out, hs...)
-		} else {
-			rng.Int63()
-		}
+		}()
 	}
-	return out
+	return out, failed
+}
+
+// bndTable maps (topic, description prefix) of catalogue entries to the boundary they sit on.
+var bndTable = map[string]map[string]string{
+	"block": {
+		"clock:future-edge-499ms": "slot=current_slot:disparity-edge-inside", "clock:future-501ms": "slot=current_slot:disparity-edge-outside",
+		"slot:=parent-slot": "slot=parent_slot", "slot:=finalized-slot": "slot=finalized_slot", "honest:slot=finalized+1": "slot=finalized_slot+1",
+		"blobs:max+1": "blobs=max+1", "honest:max-blobs": "blobs=max", "proposer:index-out-of-range": "proposer_index=count",
+	},
+	"att": {
+		"clock:future-edge-499ms": "slot=current_slot:disparity-edge-inside", "clock:future-501ms": "slot=current_slot:disparity-edge-outside",
+		"clock:old-edge-in": "window-end:disparity-edge-inside", "clock:old-501ms": "window-end:disparity-edge-outside",
+		"committee-index:=count": "committee_index=count", "bits:len+1": "bits=len+1", "bits:len-1": "bits=len-1",
+		"target-epoch:+1": "target_epoch=epoch+1", "target-epoch:-1": "target_epoch=epoch-1", "bits:two": "participants=2", "bits:none": "participants=0",
+	},
+	"exit": {"epoch:future": "exit_epoch=current+1", "index:out-of-range": "index=count", "honest:pre-fork-epoch": bndPreFork},
+	"pslash": {"proposer:index-out-of-range": "index=count", "honest:pre-fork-slot": bndPreFork,
+		"headers:different-slots": "slot2=slot1+1"},
+	"aslash": {"honest:pre-fork-target": bndPreFork, "indices2:out-of-range-member": "index=count", "indices1:empty": "indices=0"},
+	"syncmsg": {
+		"clock:future-edge-499ms": "slot=current_slot:early-edge-inside", "clock:future-501ms": "slot=current_slot:early-edge-outside",
+		"clock:next-slot-edge-499ms": "slot=current_slot:late-edge-inside", "clock:next-slot-501ms": "slot=current_slot:late-edge-outside",
+		"validator:index-out-of-range": "index=count",
+	},
+	"contrib": {
+		"clock:future-edge-499ms": "slot=current_slot:early-edge-inside", "clock:future-501ms": "slot=current_slot:early-edge-outside",
+		"clock:next-slot-edge-499ms": "slot=current_slot:late-edge-inside", "clock:next-slot-501ms": "slot=current_slot:late-edge-outside",
+		"subcommittee-index:=count": "subcommittee_index=count", "bits:none": "participants=0", "aggregator:index-out-of-range": "index=count",
+	},
+}
+
+func init() { bndTable["agg"] = bndTable["att"] }
+
+func bndOf(st *Step) string {
+	if st.Bnd != "" {
+		return st.Bnd
+	}
+	d := st.Desc
+	if i := strings.Index(d, "+outer-prefix"); i >= 0 {
+		d = d[:i]
+	}
+	return bndTable[st.Topic][d]
 }
 
 func allScenarios() []scenBuilder {
@@ -170,7 +221,14 @@ func allScenarios() []scenBuilder {
 			if err != nil {
 				return nil, err
 			}
-			return []*Scen{newScen("p0", b, v), newScen("p0early", b, ve), newScen("p0lag", b, vl)}, nil
+			// head in epoch 2 = activation + SHARD_COMMITTEE_PERIOD exactly (p0early: one epoch short)
+			v2, err := b.view("p0ep2", keepUpTo(9), "main", 0, true)
+			if err != nil {
+				return nil, err
+			}
+			s2 := newScen("p0ep2", b, v2)
+			s2.Only = map[string]bool{"exit": true}
+			return []*Scen{newScen("p0", b, v), newScen("p0early", b, ve), newScen("p0lag", b, vl), s2}, nil
 		}},
 		// the p0 chain with the altair upgrade in the middle (epoch 5): messages around the fork
 		// boundary are signed and verified under the version of their own epoch (thorough tier)
@@ -191,6 +249,33 @@ func allScenarios() []scenBuilder {
 				out = append(out, newScen(v.Name, b, v))
 			}
 			return out, nil
+		}},
+		{"gapfin", func(tier string, rng *rand.Rand) ([]*Scen, error) {
+			b, upTo, err := buildGapfin()
+			if err != nil {
+				return nil, err
+			}
+			v, err := b.view("gapfin", keepUpTo(upTo), "main", 0, true)
+			if err != nil {
+				return nil, err
+			}
+			if fb := v.Blocks[v.Fin.Root]; v.Fin.Epoch != 3 || fb == nil || fb.Slot >= v.FinalizedSlot() {
+				return nil, fmt.Errorf("gapfin: finalized checkpoint %v is not a gap-start checkpoint", v.Fin)
+			}
+			s := newScen("gapfin", b, v)
+			s.Only = map[string]bool{"block": true, "att": true, "agg": true}
+			return []*Scen{s}, nil
+		}},
+		{"forkedge", func(tier string, rng *rand.Rand) ([]*Scen, error) {
+			b, err := buildForkedge()
+			if err != nil {
+				return nil, err
+			}
+			v, err := b.view("forkedge", keepAll, "main", 0, true)
+			if err != nil {
+				return nil, err
+			}
+			return []*Scen{newScen("forkedge", b, v)}, nil
 		}},
 		{"nofin", func(tier string, rng *rand.Rand) ([]*Scen, error) {
 			b, err := buildNofin(12)
@@ -248,6 +333,19 @@ func allScenarios() []scenBuilder {
 		}},
 	}
 }
+
+// preForkEpoch: the last epoch before the most recent fork upgrade the head state has gone
+// through (ok=false if the head has not crossed a fork boundary after genesis).
+func (s *Scen) preForkEpoch() (common.Epoch, bool) {
+	head := s.V.HeadState()
+	f := head.ForkData()
+	if f.Epoch == 0 || f.Epoch > head.Epoch() || f.PreviousVersion == f.CurrentVersion {
+		return 0, false
+	}
+	return f.Epoch - 1, true
+}
+
+const bndPreFork = "epoch=fork_epoch-1:head-past-fork"
 
 func fmtSite(root common.Root, slot common.Slot, extra ...interface{}) string {
 	return fmt.Sprintf("%x@%d%s", root[:3], slot, fmt.Sprint(extra...))
